@@ -160,12 +160,12 @@ func WriteIndex(path string, idx desync.Index) error {
 type Call struct {
 	Op     string // get, has, store, close
 	ID     desync.ChunkID
-	T0, T1 int64 // logical call / return times
+	T0, T1 int64  // logical call / return times
 	Result string // ok, missing, invalid, error, true, false
-	N      int64 // ordinal of this op kind on this store (1-based)
-	Tok    int64 // unique token of the returned object (get)
-	G      int64 // goroutine that made the call
-	Err    error // error returned (if any)
+	N      int64  // ordinal of this op kind on this store (1-based)
+	Tok    int64  // unique token of the returned object (get)
+	G      int64  // goroutine that made the call
+	Err    error  // error returned (if any)
 	Chunk  *desync.Chunk
 }
 
@@ -188,7 +188,9 @@ type MemStore struct {
 	inFl    map[string]int
 	// AfterClose counts calls that arrived after Close.
 	AfterClose int64
-	ReadOnly   bool
+	// ClosedInFlight counts requests that were in flight on the store at the moment it was closed.
+	ClosedInFlight int64
+	ReadOnly       bool
 }
 
 func NewMemStore(name string) *MemStore {
@@ -355,6 +357,9 @@ func (m *MemStore) Close() error {
 	m.mu.Lock()
 	m.closed = true
 	m.counts["close"]++
+	for _, n := range m.inFl {
+		m.ClosedInFlight += int64(n)
+	}
 	m.mu.Unlock()
 	return nil
 }
@@ -499,4 +504,3 @@ func Goid() int64 {
 	}
 	return id
 }
-
